@@ -68,40 +68,172 @@ func normMsg(s string) string {
 	return s
 }
 
-// splitCollision reports whether two different messages / enums / real oneofs of the
-// linked set get the same schema name (package, names joined with "_").
-func splitCollision(files *protoregistry.Files) bool {
-	seen := map[string]string{}
-	hit := false
+// collisionKeys: the schema names (package/names joined with "_") that two different
+// messages / enums / real oneofs of the linked set share, each with the descriptors sharing it.
+func collisionKeys(files *protoregistry.Files) map[string][]string {
+	seen := map[string][]string{}
 	add := func(key, full string) {
-		if prev, ok := seen[key]; ok && prev != full {
-			hit = true
+		for _, f := range seen[key] {
+			if f == full {
+				return
+			}
 		}
-		seen[key] = full
+		seen[key] = append(seen[key], full)
 	}
 	files.RangeFiles(func(fd protoreflect.FileDescriptor) bool {
 		if strings.HasPrefix(string(fd.Package()), "google.") || strings.HasPrefix(string(fd.Package()), "buf.") {
 			return true
 		}
 		for _, m := range descgen.AllMessages(fd) {
-			add(joinSplit(m), string(m.FullName()))
+			add(joinSplit(m), "message "+string(m.FullName()))
 			for i := 0; i < m.Oneofs().Len(); i++ {
 				if o := m.Oneofs().Get(i); !o.IsSynthetic() {
-					add(joinSplit(o), string(o.FullName()))
+					add(joinSplit(o), "oneof "+string(o.FullName()))
 				}
 			}
 		}
 		for _, e := range descgen.AllEnums(fd) {
-			add(joinSplit(e), string(e.FullName()))
+			add(joinSplit(e), "enum "+string(e.FullName()))
 		}
 		return true
 	})
-	return hit
+	out := map[string][]string{}
+	for k, v := range seen {
+		if len(v) > 1 {
+			sort.Strings(v)
+			out[k] = v
+		}
+	}
+	return out
 }
 
+// reachKeys: the schema names reflecting md builds or looks up: md itself, its real oneofs, and
+// the enums / messages its fields refer to, transitively.
+func reachKeys(md protoreflect.MessageDescriptor, into map[string]bool, visited map[protoreflect.FullName]bool) {
+	if visited[md.FullName()] {
+		return
+	}
+	visited[md.FullName()] = true
+	into[joinSplit(md)] = true
+	for i := 0; i < md.Oneofs().Len(); i++ {
+		if o := md.Oneofs().Get(i); !o.IsSynthetic() {
+			into[joinSplit(o)] = true
+		}
+	}
+	for i := 0; i < md.Fields().Len(); i++ {
+		fd := md.Fields().Get(i)
+		if fd.IsMap() {
+			fd = fd.MapValue()
+		}
+		if e := fd.Enum(); e != nil {
+			into[joinSplit(e)] = true
+		}
+		if m := fd.Message(); m != nil && !strings.HasPrefix(string(m.FullName()), "google.protobuf.") {
+			reachKeys(m, into, visited)
+		}
+	}
+}
+
+// collisionScope answers, for one case, which colliding schema names a step can be affected by.
+type collisionScope struct {
+	files *protoregistry.Files
+	coll  map[string][]string
+	memo  map[string][]string
+}
+
+func newCollisionScope(files *protoregistry.Files) *collisionScope {
+	return &collisionScope{files: files, coll: collisionKeys(files), memo: map[string][]string{}}
+}
+
+// among: the colliding names among keys
+func (cs *collisionScope) among(keys []string) []string {
+	var out []string
+	for _, k := range keys {
+		if _, ok := cs.coll[k]; ok {
+			out = append(out, k)
+		}
+	}
+	return out
+}
+
+// ofMessage: the colliding names reachable from the message
+func (cs *collisionScope) ofMessage(full string) []string {
+	if len(cs.coll) == 0 {
+		return nil
+	}
+	if v, ok := cs.memo["m:"+full]; ok {
+		return v
+	}
+	var out []string
+	if d, err := cs.files.FindDescriptorByName(protoreflect.FullName(full)); err == nil {
+		if md, ok := d.(protoreflect.MessageDescriptor); ok {
+			into := map[string]bool{}
+			reachKeys(md, into, map[protoreflect.FullName]bool{})
+			for k := range into {
+				if _, ok := cs.coll[k]; ok {
+					out = append(out, k)
+				}
+			}
+		}
+	}
+	sort.Strings(out)
+	cs.memo["m:"+full] = out
+	return out
+}
+
+// ofFile: the colliding names reachable from the messages and enums of the file
+func (cs *collisionScope) ofFile(path string) []string {
+	if len(cs.coll) == 0 {
+		return nil
+	}
+	fd, err := cs.files.FindFileByPath(path)
+	if err != nil {
+		return nil
+	}
+	set := map[string]bool{}
+	for _, m := range descgen.AllMessages(fd) {
+		for _, k := range cs.ofMessage(string(m.FullName())) {
+			set[k] = true
+		}
+	}
+	for _, e := range descgen.AllEnums(fd) {
+		if _, ok := cs.coll[joinSplit(e)]; ok {
+			set[joinSplit(e)] = true
+		}
+	}
+	var out []string
+	for k := range set {
+		out = append(out, k)
+	}
+	sort.Strings(out)
+	return out
+}
+
+// splitCollision reports whether two different messages / enums / real oneofs of the
+// linked set get the same schema name (package, names joined with "_").
+func splitCollision(files *protoregistry.Files) bool { return len(collisionKeys(files)) > 0 }
+
+// Known-finding signatures of this family are CONDITIONAL: each is given to a failure only when
+// the descriptor shows that failure to be an instance of the recorded defect (the colliding names,
+// the flatten site, the exposed oneof are derived per failure); the same symptom anywhere else
+// keeps its own specific signature and is reported as a new violation.
+
+// the two properties with one name are exactly an exposed oneof and a field of the same message
 const sigOwnDup = "C18 reflected object / oneof has two properties with one name (JSON name of an exposed oneof equals the JSON name of a field)"
 
-var reConfusion = regexp.MustCompile(`interface conversion|refers to \*|fresh panic|fresh err, shared ok|fresh ok, shared|newPropSet: field|path-resolves`)
+// the properties with one name come from different flatten levels of the object, once per level
+const sigFlattenDup = "C18 client properties of a reflected object have one JSON name twice: properties of different flatten levels (a flattened child against a sibling or another flattened child)"
+
+// decode of the codec's own output fails on the repeated key, the key being such a duplicate name
+const sigDecodeFlattenDup = "C18 codec decode populated of a reflected type -> err: field is already set, the field being a JSON name that two flatten levels of the object share"
+const sigDecodeOneofDup = "C18 codec decode populated of a reflected type -> err: field is already set, the field being the JSON name shared by an exposed oneof and a field"
+
+// the failing step builds or looks up a schema name that two descriptors share (Keys name it)
+const sigCollision = "C18 two descriptors with the same split name (package, names joined by _), the failing step involving that name -> type confusion (schema of another descriptor / codec failure / order-dependent answer)"
+
+var reConfusion = regexp.MustCompile(`interface conversion|refers to \*|fresh panic|fresh err, shared ok|fresh ok, shared|newPropSet: field|path-resolves|getting mutable reference|no message for`)
+
+var reAlreadySet = regexp.MustCompile(`field ([A-Za-z0-9_]+) is already set`)
 
 type c18case struct {
 	id    int
@@ -135,7 +267,18 @@ func runC18(cfg *vh.Config) error {
 			prof.Wild = 25
 		}
 		prof.Comments = r.Chance(25)
-		prof.Collide = len(cases) == 1 || len(cases) == 2 || len(cases) == 12
+		switch len(cases) {
+		case 1:
+			prof.Collide = 1
+		case 2:
+			prof.Collide = 2
+		case 12:
+			prof.Collide = 3
+		case 22:
+			prof.Collide = 4
+		case 32:
+			prof.Collide = 1 + r.Intn(4)
+		}
 		prof.Clash = len(cases) == 4 || len(cases) == 14
 		switch len(cases) {
 		case 6:
@@ -156,7 +299,7 @@ func runC18(cfg *vh.Config) error {
 		c := descgen.Generate(r.Fork(fmt.Sprintf("case%d-%d", len(cases), invalid)), prof, deps)
 		if len(cases)%10 == 3 {
 			// a valid j5s package compiled by the real compiler (the C02 generator)
-			jc, jerr := descgen.GenerateJ5S(r.Fork(fmt.Sprintf("j5s-%d-%d", len(cases), invalid)))
+			jc, jerr := descgen.GenerateJ5S(r.Fork(fmt.Sprintf("j5s-%d-%d", len(cases), invalid)), len(cases)%20 == 13)
 			if jerr != nil {
 				invalid++
 				res.Count("j5s-package-not-compiled")
@@ -234,26 +377,54 @@ func runC18(cfg *vh.Config) error {
 		input := map[string]any{"files": c.c.GenPaths(), "seed": cfg.Seed, "case": c.id, "generated_files_base64": genOnlyB64(c.c)}
 		fresh := map[string]string{} // msg -> fresh-cache class
 		freshEnc := map[string]string{}
-		collides := splitCollision(c.files)
-		if collides {
+		scope := newCollisionScope(c.files)
+		if len(scope.coll) > 0 {
 			res.Count("case-with-split-name-collision")
 		}
 		for _, o := range os {
 			evals++
 			kind, arg, _ := strings.Cut(o.Step, "|")
 			res.Count("step:" + kind + ":" + o.Class)
-			fail := func(sig, clause, got string) {
+			// the colliding schema names this step can meet: those reachable from its message
+			// (file); a violation of one schema / property narrows that to the names it involves
+			var stepKeys []string
+			switch kind {
+			case "set":
+				stepKeys = scope.ofFile(arg)
+			case "msg", "client", "newroot", "codec":
+				stepKeys = scope.ofMessage(arg)
+			}
+			failK := func(keys []string, sig, clause, got string) {
 				in := map[string]any{}
 				for k, v := range input {
 					in[k] = v
 				}
 				in["step"] = o.Step
-				if collides && reConfusion.MatchString(sig+" "+got) {
-					// one signature for the name-collision class; the stage stays in Got
-					got = sig + " | " + got
-					sig = "C18 two descriptors with the same split name (package, names joined by _) -> type confusion (reader panic / schema of another kind / codec failure / order-dependent answer)"
+				if len(keys) > 0 && reConfusion.MatchString(sig+" "+got) {
+					// one signature for the name-collision class, given only when the failure involves
+					// a colliding name; the stage and the names stay in Got
+					var parties []string
+					for _, k := range keys {
+						parties = append(parties, k+" = "+strings.Join(scope.coll[k], " / "))
+					}
+					got = sig + " | " + got + " | colliding: " + strings.Join(parties, "; ")
+					sig = sigCollision
 				}
 				res.Fail(vh.Failure{Case: c.id, Stream: kind, Sig: sig, Clause: clause, Input: in, Got: got})
+			}
+			fail := func(sig, clause, got string) { failK(stepKeys, sig, clause, got) }
+			// violation i of the step: bound to the schema names it involves
+			violKeys := func(i int) []string {
+				if i < len(o.ViolKeys) {
+					return scope.among(o.ViolKeys[i])
+				}
+				return nil
+			}
+			violKind := func(i int) string {
+				if i < len(o.ViolKind) {
+					return o.ViolKind[i]
+				}
+				return ""
 			}
 			bad := o.Class == "panic" || o.Class == "fatal" || o.Class == "timeout"
 			switch kind {
@@ -263,15 +434,16 @@ func runC18(cfg *vh.Config) error {
 				fail("C18 worker process died outside a step", "never panics or recurses forever", o.Msg)
 			case "set":
 				if bad {
-					fail(fmt.Sprintf("C18 SchemaSetFromFiles -> %s in %s: %s", o.Class, o.Site, normMsg(o.Msg)), "building J5 schemas returns a schema set or an error; it never panics or recurses forever", o.Msg)
+					// a reader panic is never part of the name-collision finding (fixed by 32db692; C18_reflect_total)
+					failK(nil, fmt.Sprintf("C18 SchemaSetFromFiles -> %s in %s: %s", o.Class, o.Site, normMsg(o.Msg)), "building J5 schemas returns a schema set or an error; it never panics or recurses forever", o.Msg)
 				}
-				for _, v := range o.Viol {
+				for i, v := range o.Viol {
 					clause, _, _ := strings.Cut(v, ":")
-					if clause == "names-unique" {
-						fail(sigOwnDup, "property names are unique within each object", v)
+					if clause == "names-unique" && violKind(i) == dupOneofVsField {
+						failK(nil, sigOwnDup, "property names are unique within each object", v)
 						continue
 					}
-					fail("C18 SchemaSetFromFiles ok but "+clause+": "+normMsg(v), "on success every property's proto field path resolves to a field of the matching kind and names are unique", v)
+					failK(violKeys(i), "C18 SchemaSetFromFiles ok but "+clause+": "+normMsg(v), "on success every property's proto field path resolves to a field of the matching kind and names are unique", v)
 				}
 				set := "[]"
 				if o.Class == "ok" {
@@ -281,15 +453,15 @@ func runC18(cfg *vh.Config) error {
 			case "msg":
 				fresh[arg] = o.Class
 				if bad {
-					fail(fmt.Sprintf("C18 SchemaCache.Schema -> %s in %s: %s", o.Class, o.Site, normMsg(o.Msg)), "building J5 schemas returns a schema set or an error; it never panics or recurses forever", o.Msg)
+					failK(nil, fmt.Sprintf("C18 SchemaCache.Schema -> %s in %s: %s", o.Class, o.Site, normMsg(o.Msg)), "building J5 schemas returns a schema set or an error; it never panics or recurses forever", o.Msg)
 				}
-				for _, v := range o.Viol {
+				for i, v := range o.Viol {
 					clause, _, _ := strings.Cut(v, ":")
-					if clause == "names-unique" {
-						fail(sigOwnDup, "property names are unique within each object", v)
+					if clause == "names-unique" && violKind(i) == dupOneofVsField {
+						failK(nil, sigOwnDup, "property names are unique within each object", v)
 						continue
 					}
-					fail("C18 SchemaCache.Schema ok but "+clause+": "+normMsg(v), "on success every property's proto field path resolves to a field of the matching kind and names are unique", v)
+					failK(violKeys(i), "C18 SchemaCache.Schema ok but "+clause+": "+normMsg(v), "on success every property's proto field path resolves to a field of the matching kind and names are unique", v)
 				}
 				root := "None"
 				if o.Class == "ok" {
@@ -301,12 +473,23 @@ func runC18(cfg *vh.Config) error {
 					fail(fmt.Sprintf("C18 ClientProperties of a reflected object -> %s in %s: %s", o.Class, o.Site, normMsg(o.Msg)), "never panics or recurses forever, including on self- and mutually-recursive messages", o.Msg)
 				}
 				ownDup := len(o.Sub) == 3 && o.Sub[2] == "own-dup"
-				for _, v := range o.Viol {
+				for i, v := range o.Viol {
 					clause, _, _ := strings.Cut(v, ":")
-					if clause == "names-unique" && ownDup {
-						continue // reported for the object itself (msg / set steps)
+					if clause == "names-unique" {
+						switch violKind(i) {
+						case dupFlatten:
+							failK(nil, sigFlattenDup, "property names are unique within each object", v)
+							continue
+						case dupOneofVsField:
+							if ownDup {
+								continue // the object's own duplicate: reported by its msg / set step
+							}
+							// the duplicate of a flattened child, seen through the flattening
+							failK(nil, sigOwnDup, "property names are unique within each object", v)
+							continue
+						}
 					}
-					fail("C18 client properties "+clause+": "+normMsg(v), "on success every property's proto field path resolves to a field of the matching kind and names are unique", v)
+					failK(violKeys(i), "C18 client properties "+clause+": "+normMsg(v), "on success every property's proto field path resolves to a field of the matching kind and names are unique", v)
 				}
 				dup, unres := false, false
 				if len(o.Sub) >= 2 {
@@ -337,7 +520,19 @@ func runC18(cfg *vh.Config) error {
 						if i == 4 { // "<field>: <text>"
 							_, m, _ = strings.Cut(m, ": ")
 						}
-						fail(fmt.Sprintf("C18 codec %s of a reflected type -> %s: %s", names[i], s, normMsg(m)), "the codec can encode and decode an empty and a populated message of every reflected type", o.SubMsg[i]+" input="+o.Extra)
+						sig := fmt.Sprintf("C18 codec %s of a reflected type -> %s: %s", names[i], s, normMsg(m))
+						if mm := reAlreadySet.FindStringSubmatch(m); i == 3 && s == "err" && mm != nil {
+							// the repeated key must be one of the duplicate names of THIS type, with its cause
+							for _, n := range o.Names {
+								switch n {
+								case dupFlatten + ":" + mm[1]:
+									sig = sigDecodeFlattenDup
+								case dupOneofVsField + ":" + mm[1]:
+									sig = sigDecodeOneofDup
+								}
+							}
+						}
+						fail(sig, "the codec can encode and decode an empty and a populated message of every reflected type", o.SubMsg[i]+" input="+o.Extra)
 					}
 				}
 				if len(o.Sub) == 5 {
@@ -350,10 +545,11 @@ func runC18(cfg *vh.Config) error {
 					break
 				}
 				for i, s := range o.Sub {
+					hk := scope.ofMessage(o.Names[i])
 					if s == "panic" {
-						fail(fmt.Sprintf("C18 SchemaCache.Schema after an earlier failed build on the same cache -> panic: %s", normMsg(o.SubMsg[i])), "building J5 schemas returns a schema set or an error; it never panics", fmt.Sprintf("order=%v at %s: %s", o.Names, o.Names[i], o.SubMsg[i]))
+						failK(nil, fmt.Sprintf("C18 SchemaCache.Schema after an earlier failed build on the same cache -> panic: %s", normMsg(o.SubMsg[i])), "building J5 schemas returns a schema set or an error; it never panics", fmt.Sprintf("order=%v at %s: %s", o.Names, o.Names[i], o.SubMsg[i]))
 					} else if f, ok := fresh[o.Names[i]]; ok && f != s && (f == "ok" || s == "ok") {
-						fail(fmt.Sprintf("C18 SchemaCache.Schema answer depends on earlier failed builds: fresh %s, shared %s: %s", f, s, normMsg(o.SubMsg[i])), "a failed build leaves no half-built entry that changes a later answer", fmt.Sprintf("order=%v at %s: %s", o.Names, o.Names[i], o.SubMsg[i]))
+						failK(hk, fmt.Sprintf("C18 SchemaCache.Schema answer depends on earlier failed builds: fresh %s, shared %s: %s", f, s, normMsg(o.SubMsg[i])), "a failed build leaves no half-built entry that changes a later answer", fmt.Sprintf("order=%v at %s: %s", o.Names, o.Names[i], o.SubMsg[i]))
 					}
 				}
 				var hs []string
